@@ -8,6 +8,8 @@ import itertools
 import math
 import sys
 
+import numpy as np
+
 from mc.engine import hbfs, par
 from mc.engine.report import Violation
 from mc.engine.seams import reset_library, new_model
@@ -50,19 +52,40 @@ def shapes(tier):
         yield ('grid', list(g))
 
 
-def mk(model, kind, dims):
+def mk(model, kind, dims, flag='default'):
+    # falsy wrap flags that are not the object False: still a non-wrapping world
+    kw = {} if flag == 'default' else {'wrap_env': {'none': None, 'zero': 0, 'np_false': np.False_}[flag]}
     if kind == 'discrete':
-        return Envs.DiscreteWorld(model, *dims)
+        return Envs.DiscreteWorld(model, *dims, **kw)
     if kind == 'line':
-        return Envs.LineWorld(model, dims[0])
-    return Envs.GridWorld(model, *dims)
+        return Envs.LineWorld(model, dims[0], **kw)
+    return Envs.GridWorld(model, *dims, **kw)
+
+
+def faults(world, ncells):
+    """Queries that are refused (unsupported return type, centre that is no cell, unknown neighbourhood kind); whatever
+    a refused query leaves behind must not show in the answers that follow."""
+    n = 0
+    for call in (lambda: world.get_neumann_neighbours((0, 0), 1),
+                 lambda: world.get_moore_neighbours(0, 1, False, dict),
+                 lambda: world.get_moore_neighbours(-ncells - 3, 1),
+                 lambda: world.get_neighbours(0, radius=1, mode='hexagonal'),
+                 lambda: world.get_neumann_neighbours(ncells + 7, 1),
+                 lambda: world.get_neumann_neighbours('centre', 2),
+                 lambda: world.get_neumann_neighbours(0, 1, True, str)):      # the last one is refused for certain
+        n += 1
+        try:
+            call()
+        except Exception:      # noqa - refused, as expected; an accepted odd query is not judged here
+            pass
+    return n
 
 
 def check_shape(case):
     reset_library()
     kind, dims = case['kind'], case['dims']
     model = new_model(seed=1)
-    world = mk(model, kind, dims)
+    world = mk(model, kind, dims, case.get('flag', 'default'))
     # other grid worlds alive in the same process, built after this one and queried in between
     others = [Envs.GridWorld(new_model(seed=2), 4, 3), Envs.DiscreteWorld(new_model(seed=3), 2, 3, 4)]
     table = [tuple(p) for p in world.cells['pos']]
@@ -93,6 +116,8 @@ def check_shape(case):
             o.get_moore_neighbours(cid % 12, 1)
             o.get_neumann_neighbours((cid % 2, cid % 3, 0), 2, True, tuple)
         for r in radii:
+            if case.get('faults'):
+                calls += faults(world, len(table))      # refused queries right before every Moore query
             for metric in ('moore', 'neumann'):
                 if metric == 'moore':
                     ball = [p for p in table if max(abs(p[0] - centre[0]), abs(p[1] - centre[1]),
@@ -174,8 +199,14 @@ def run(ctx):
     if ctx.tier == 'thorough':
         cases += [{'leg': 'big', 'kind': 'discrete', 'dims': [9, 8, 7], 'big': True, 'radii': [3, 4, 5, 9]},
                   {'leg': 'big', 'kind': 'line', 'dims': [600], 'big': True, 'radii': [1, 150, 300, 601]}]
+    # refused queries in between (state left behind on an error path), and falsy wrap flags other than False
+    extra = [dict(c, leg='faults', faults=True) for c in cases if c['leg'] == 'shape' and max(c['dims']) <= 3 and
+             (c['kind'] != 'discrete' or sorted(c['dims']) in ([0, 2, 3], [1, 2, 3], [2, 2, 2], [0, 0, 3], [3, 3, 3]))]
+    extra += [dict(c, leg='flag', flag=f) for c in cases if c['leg'] == 'shape' and
+              (c['dims'] in ([3, 2, 2], [0, 3, 2], [3], [4, 4], [3, 2])) for f in ('none', 'zero', 'np_false')]
+    cases += extra
     if ctx.small:
-        cases = [c for c in cases if c['leg'] == 'shape' and max(c['dims']) <= 2]
+        cases = [c for c in cases if c['leg'] in ('shape', 'faults') and max(c['dims']) <= 2]
     cases.sort(key=lambda c: -(max(c['dims'][0], 1) * max((c['dims'] + [1, 1])[1], 1) * max((c['dims'] + [1, 1])[2], 1)))
     par.pmap(ctx, chunk_fn, [[c] for c in cases], procs=ctx.procs)
     for c in (cases[0], cases[len(cases) // 2], cases[-1]):
